@@ -434,3 +434,34 @@ def c19(ck):
     ck.trace("concat", "concat", ["-n", q(ck, 600, 15000)], "TraceSml", "TraceSml.cfg", ["InvC19"], agree=["InvAgreeC19"],
              key=lambda e: json.dumps(e.get("whole", {}).get("text")))
     ck.assumptions.append(SML_NOTE)
+
+
+# ---------------------------------------------------------------------------------------------- C17
+@check("C17", design_ref="4 C17",
+       technique="TLC enumeration of the concurrent configurations of a TLA+ model of overlapping calls on shared immutable values; each configuration executed by real goroutines in a -race build, results validated by TLC",
+       text="Concurrency.tla models calls as Start/End pairs with read footprints on shared objects and write footprints on locations of their own; TLC "
+            "checks that no reachable configuration has conflicting footprints and enumerates all 1,792 configurations (which of 10 operations overlap on "
+            "which of 3 shared objects, up to 3 goroutines). Every configuration is executed for real - goroutines released from a barrier, several "
+            "rounds, fresh variable names in every call so that no cache is warm - in a race-detector build; a race report aborts the worker. The "
+            "same calls are then executed alone and TLC checks that every concurrent result equals the solo result.",
+       note="the Go race detector (happens-before based: one execution of a configuration exposes a race for every schedule of it, because the library "
+            "has no synchronisation that could order the accesses) and the worker's exit status are instruments; the footprints are the model's "
+            "assumption about the code, checked by the detector")
+def c17(ck):
+    ck.rule.append("all multisets of 2..3 applicable (operation, shared object) calls x 4 (quick) / 25 (thorough) rounds; non-trivial = every "
+                   "configuration; distinct by the multiset of calls")
+    r = ck.model("MCConcurrency", "MCConcurrency", "MCConcurrency.cfg", timeout=600)
+    seen, cases = set(), []
+    for c in r.cases:
+        k = json.dumps(c, sort_keys=True)
+        if k not in seen:
+            seen.add(k)
+            cases.append(c)
+    if len(cases) < 1000:
+        raise ToolError("too few concurrent configurations enumerated: %d" % len(cases))
+    table = write_cases(ck, cases, "conc-table.ndjson")
+    ck.exhaustive = True
+    ev = ck.trace("conc", "conc", ["-in", table, "-n", q(ck, 4, 25)], "TraceConc", "TraceConc.cfg", ["InvC17"], worker=True, race=True,
+                  nontrivial=lambda e: e.get("ev") == "conc", key=lambda e: json.dumps([e.get("ev"), e.get("calls")]))
+    ck.replayed += len(cases)
+    ck.assumptions += ["one execution per configuration and round; schedules are not controlled (the detector does not need them to be)"]
